@@ -500,9 +500,10 @@ class Check:
             self.known.append(line)
 
     def violation(self, replay_obj, nofail=False, tag="v"):
-        os.makedirs(os.path.join(VERIF, "replays"), exist_ok=True)
+        rdir = os.path.join(VERIF, "replays") if _KEY == "main" else os.path.join(VERIF, "replays", _KEY)
+        os.makedirs(rdir, exist_ok=True)
         n = len(self.violations)
-        path = os.path.join(VERIF, "replays", "%s-%d-%s%d.json" % (self.pid, self.seed, tag, n))
+        path = os.path.join(rdir, "%s-%d-%s%d.json" % (self.pid, self.seed, tag, n))
         replay_obj = dict(replay_obj)
         replay_obj.setdefault("property", self.pid)
         replay_obj.setdefault("seed", self.seed)
